@@ -174,3 +174,22 @@ def _flag_without_lookup(ps, ssp, crate):
                     if e["callee"].endswith("::push"):
                         return pending[1]
     return 0
+
+
+SS_VEC = "Vec<std::option::Option<std::rc::Rc<unifiable::Unifiable>>>"
+
+
+def raw_binding_reads(prog, fns):
+    """[(function, line)] where one of the given functions reads a binding by indexing the substitution set itself
+    (`ss[id]`, `ss.get(id)`) instead of asking a resolver of the substitution-set module, which follows chains."""
+    out = []
+    for b in fns:
+        for i, t in b.calls():
+            nm = t["callee"].get("path") or ""
+            pa = (t["callee"].get("path_args") or "").replace(" ", "")
+            if SS_VEC in pa and (nm.endswith("::index") or nm.endswith("::get") or nm.endswith("::get_unchecked")):
+                out.append((b, t["line"]))
+            elif (nm.endswith("::index") or nm.endswith("::get")) and t["args"] and \
+                    SS_VEC in ((t["args"][0].get("place") or {}).get("ty", "") or "").replace(" ", ""):
+                out.append((b, t["line"]))
+    return out
